@@ -75,6 +75,10 @@ pub struct BuiltSpec {
     /// After all qualifiers are in: `without_qualifier` of the i-th one (modulo).
     #[serde(default)]
     pub drop_qualifier: Option<usize>,
+    /// Written straight into the builder's public `parts.qualifiers` (not through `with_qualifier`):
+    /// key and value; an empty value must leave no trace in the built PURL.
+    #[serde(default)]
+    pub direct_qualifier: Option<(String, String)>,
 }
 
 #[derive(Clone, Debug, PartialEq, Eq, Serialize, Deserialize)]
@@ -822,6 +826,9 @@ where
                 if let (Some(i), false) = (b.drop_qualifier, b.qualifiers.is_empty()) {
                     builder = builder.without_qualifier(b.qualifiers[i % b.qualifiers.len()].0.as_str());
                 }
+                if let Some((k, v)) = &b.direct_qualifier {
+                    let _ = builder.parts.qualifiers.insert(k.as_str(), v.as_str());
+                }
                 let built = guarded(move || builder.build().ok()).map_err(|p| violation!("C16.panic_in_build", "building {b:?} panicked: {p}"))?;
                 let Some(p) = built else { continue };
                 let canon = guarded(|| p.clone().to_string()).map_err(|e| violation!("C16.panic_in_display", "to_string() of the PURL built from {b:?} panicked: {e}"))?;
@@ -1372,8 +1379,13 @@ impl Sim for C16 {
         for _ in 0..n_docs {
             let roll = rng.below(10);
             let doc = if producer_heavy && roll < 6 || roll < 2 {
-                let c = gen::components(&mut rng, known);
-                DocSpec::Parsed { input: gen::spell(&c, if rng.chance(1, 3) { 0 } else { rng.subseed() }) }
+                if rng.chance(1, 4) {
+                    // Any string at all; if the parser refuses it the document becomes a raw string.
+                    DocSpec::Parsed { input: gen::any_input(&mut rng, known) }
+                } else {
+                    let c = gen::components(&mut rng, known);
+                    DocSpec::Parsed { input: gen::spell(&c, if rng.chance(1, 3) { 0 } else { rng.subseed() }) }
+                }
             } else if producer_heavy && roll < 8 || roll < 3 {
                 let c = gen::components(&mut rng, known);
                 DocSpec::Built(BuiltSpec {
@@ -1391,6 +1403,11 @@ impl Sim for C16 {
                     },
                     subpath: if rng.chance(1, 6) { (*rng.pick(&["a/./b", "../a", "a//b"])).to_owned() } else { c.subpath.join("/") },
                     drop_qualifier: if rng.chance(1, 4) { Some(rng.below(4)) } else { None },
+                    direct_qualifier: if rng.chance(1, 5) {
+                        Some(((*rng.pick(&["repository_url", "arch", "zz", "checksum"])).to_owned(), if rng.chance(2, 3) { String::new() } else { "x".to_owned() }))
+                    } else {
+                        None
+                    },
                 })
             } else if roll < 9 {
                 DocSpec::RawString { s: gen::any_input(&mut rng, known), json_seed: if rng.chance(1, 2) { 0 } else { rng.subseed() } }
